@@ -207,8 +207,8 @@ class _AbstractOrderedSet(AbstractSet[T], Sequence[T]):  # noqa: PLW1641
             True, if this is a superset of other.
         """
         try:
-            # Fast check for obvious cases
-            if len(self) < len(other):  # type: ignore[arg-type]
+            # Fast check for obvious cases, only valid if other has no duplicates
+            if isinstance(other, AbstractSet) and len(self) < len(other):
                 return False
         except TypeError:
             pass
